@@ -96,6 +96,9 @@ Definition step_inj (v : variant) (k : cfg) (s : st) (o : op) (inj : option (N *
   | Some _ =>
     match o with
     | Handshake c kind x isCtl =>
+      (* a control record without a session connection exists only when it was registered by the late path below after the base
+         record had been closed: CloseConnection set the shared Stream to nil, so the response cannot even be attempted (no I/O call) *)
+      if (match get c (reg s) with Some _ => negb (mem c (sess s)) | None => false end) then (step v k s o, false) else
         (* injection point 9: RemoteAddr(), reached only on the path that creates the control record *)
         let '(sJ, f9) := match get c (reg s) with
                          | None => if mem c (sess s) then inject v k inj 9 c s else (s, false)
